@@ -283,6 +283,14 @@ def r16_3_6(ctx, pf, loop, info, report_repeats=True):
                 for k in [c] if isinstance(c, ast.Constant) else (list(c.elts) if isinstance(c, (ast.Tuple, ast.List, ast.Set)) else []):
                     if isinstance(k, ast.Constant) and isinstance(k.value, str) and k.value not in consts:
                         consts.append(k.value)
+    for n in ast.walk(loop):  # keys named in module-level collections the key is tested against
+        if isinstance(n, ast.Compare) and norm(n.left) == kv and isinstance(n.comparators[0], ast.Name):
+            d_ = pf.module.consts.get(n.comparators[0].id)
+            if isinstance(d_, ast.Call) and d_.args:
+                d_ = d_.args[0]
+            for k in (d_.elts if isinstance(d_, (ast.Tuple, ast.List, ast.Set)) else []):
+                if isinstance(k, ast.Constant) and isinstance(k.value, str) and k.value not in consts:
+                    consts.append(k.value)
     fresh = next(k for k in ("NM:i:", "dv:f:", "zz:Z:") if k not in consts)
     for k in ("ds:Z:", "cg:Z:"):
         if k not in consts:
@@ -314,6 +322,10 @@ def r16_3_6(ctx, pf, loop, info, report_repeats=True):
             if norm(e.left) == kv:
                 if isinstance(c, ast.Constant) and isinstance(c.value, str) and isinstance(e.ops[0], (ast.Eq, ast.NotEq)):
                     return (key == c.value) == isinstance(e.ops[0], ast.Eq)
+                if isinstance(c, ast.Name) and isinstance(pf.module.consts.get(c.id), (ast.Call, ast.Tuple, ast.List, ast.Set)):
+                    c = pf.module.consts[c.id]  # a module-level literal collection (frozenset({...}), a tuple / set display)
+                    if isinstance(c, ast.Call) and isinstance(c.func, ast.Name) and c.func.id in ("frozenset", "set", "tuple", "list") and len(c.args) == 1:
+                        c = c.args[0]
                 if isinstance(c, (ast.Tuple, ast.List, ast.Set)) and all(isinstance(k, ast.Constant) for k in c.elts) and isinstance(e.ops[0], (ast.In, ast.NotIn)):
                     return (key in [k.value for k in c.elts]) == isinstance(e.ops[0], ast.In)
         return None
@@ -399,6 +411,8 @@ def r16_4(ctx, f, rec, n, extras, schema, key_colon):
         where = f.where(st)
         for a in tmpl.arity_errors(parts):
             ctx.violated("R16.4", where, f"format arity: {a[2]}", key_of(f, "arity:" + sig[:80]))
+        if not reps and emit.has_unlinked_tag_loop(f, rec, tags_attr, var):
+            raise AnalysisError("R16.4", where, "the function iterates the record's optional fields, but not into the string this rule follows: how they reach the output is not traced")
         if len(reps) != 1:
             ctx.violated("R16.4", where, f"the record is emitted with {len(reps)} repetitions over its tag mapping (expected exactly one: every parsed field once)", key_of(f, f"tag-rep-count:{len(reps)}"), template=sig[:300])
             continue
@@ -453,6 +467,8 @@ def r16_4(ctx, f, rec, n, extras, schema, key_colon):
         k = kvars[0]
         vals = {f"{base}[{k}]"} | ({kvars[1]} if len(kvars) > 1 else set())
         shape_ok = len(body) == 3 and body[0] == ("lit", "\t") and body[1][0] == "hole" and norm(body[1][1]) == k and body[2][0] == "hole" and norm(body[2][1]) in vals
+        if any(x[0] == "opaque" for x in body):
+            raise AnalysisError("R16.4", f.where(loop), f"what the loop over the parsed fields writes is not a string template this rule reads (`{tmpl.show(body)[:70]}`)")
         if key_colon:
             ctx.check(shape_ok, "R16.4", f.where(loop), "each field is written as TAB key value with nothing between key and value (the stored key already ends with ':')", key_of(f, f"tag-spelling:{tmpl.show(body)}"), template=tmpl.show(body))
         else:
@@ -564,6 +580,8 @@ def r16_7(ctx, schema, extras):
             c = cols[i] if i < len(cols) else []
             ok = len(c) == 1 and c[0][0] == "hole" and isinstance(c[0][1], ast.Attribute) and norm(c[0][1].value) == rec and schema.get(c[0][1].attr) == i
             if not ok:
+                if len(cols) < 12 or any(x[0] == "hole" and isinstance(x[1], ast.Call) for x in c):
+                    raise AnalysisError("R16.7", f.where(st), f"the returned string is assembled in a way this rule does not read as twelve columns (`{tmpl.show(c)[:60]}`)")
                 bad = (i + 1, tmpl.show(c))
                 break
         ctx.check(bad is None, "R16.7", f.where(st), "the plain re-serialiser writes the twelve parsed columns, each from its own attribute, in schema order", key_of(f, f"str-columns:{bad}"), **({"column": bad[0], "found": bad[1]} if bad else {}))
